@@ -125,6 +125,20 @@ def build(spec, pool_objs):
         idx = pd.Index([r[0] for r in rows], name=names[0])
     else:
         idx = pd.MultiIndex.from_tuples(rows, names=names)
+    cat = spec.get("categorical")
+    if cat and cat["level"] in names and not isinstance(idx, pd.RangeIndex) and not spec.get("one_level_multiindex"):
+        # the keys of one level as a categorical whose categories are listed in this operand's own order
+        import random as _r
+        li = names.index(cat["level"])
+        order = list(dict.fromkeys(r[li] for r in rows))
+        _r.Random(cat["seed"]).shuffle(order)
+        col = pd.Categorical([r[li] for r in rows], categories=order)
+        if isinstance(idx, pd.MultiIndex):
+            arrays = [idx.get_level_values(q) for q in range(idx.nlevels)]
+            arrays[li] = col
+            idx = pd.MultiIndex.from_arrays(arrays, names=names)
+        else:
+            idx = pd.CategoricalIndex(col, name=names[0])
     vals = np.array(spec["values"], dtype=np.float64).reshape(len(rows), -1)
     if spec["kind"] == "series":
         return pd.Series(vals[:, 0], index=idx, name=spec.get("name"))
@@ -265,6 +279,8 @@ def generate(prop, rng, tier):
         key_sets[n] = rng.sample(keys, m) if rng.random() < 0.5 else keys[:m]
     key_sets["r"] = rng.choice([[0, 10, 20, 30], [0, 10, 20], [10, 20, 30], [0, 20], [10, 30], [0, 30], [10, 20]])
     n_pool = rng.randint(3, 6)
+    # in some runs the keys of one level are categoricals, each operand listing the categories in an order of its own
+    cat_level = rng.choice(["a", "b", "c", "d"]) if rng.random() < 0.15 else "-"
     for i in range(n_pool):
         r = rng.random()
         if pool and r < 0.22 and r >= 0.12:
@@ -307,6 +323,8 @@ def generate(prop, rng, tier):
         k = rng.choice([1, 1, 2, 2, 3])
         names = rng.sample(NAMES, k)
         spec = {"kind": rng.choice(["series", "frame", "frame"]), "names": names}
+        if cat_level in names:
+            spec["categorical"] = {"level": cat_level, "seed": rng.randint(0, 999)}
         rows = full_rows_for(names, key_sets)
         if rng.random() < 0.6:
             rng.shuffle(rows)
@@ -754,6 +772,9 @@ def _run(trace, out, log):
             return
         log.add(k, "bc", i, j, sig, snapshot(obj_r)["rows"], snapshot(prm_r)["rows"])
         out.count("op:bc")
+        if any(isinstance(getattr(x_.index, "levels", [x_.index])[q_], pd.CategoricalIndex) for x_ in (obj, prm_o) if isinstance(getattr(x_, "index", None), pd.Index)
+               for q_ in range(getattr(x_.index, "nlevels", 1))):
+            out.count("probe:categorical_level")
         for x_, y_ in ((obj, prm_o), (prm_o, obj)):
             if isinstance(x_, pd.DataFrame) and isinstance(getattr(y_, "index", None), pd.Index) and \
                     any(isinstance(c_, str) and c_ in y_.index.names for c_ in x_.columns):
